@@ -17,12 +17,12 @@ pub fn plan(prop: &'static str) -> Plan {
     match prop {
         "C03" => Plan { prop, seeds: all_seeds, runs: vec![(Profile::Tree, 2, 3), (Profile::Files, 2, 2), (Profile::All, 1, 2)], stale: true },
         "C04" => Plan { prop, seeds: all_seeds, runs: vec![(Profile::Tree, 2, 3), (Profile::Files, 2, 3), (Profile::All, 1, 2)], stale: false },
-        "C05" => Plan { prop, seeds: vec!["refs", "nested", "twofile", "samever", "lenient"], runs: vec![(Profile::Refs, 2, 3), (Profile::All, 1, 2)], stale: false },
-        "C06" => Plan { prop, seeds: vec!["refs", "nested", "twofile", "samever"], runs: vec![(Profile::Refs, 2, 3), (Profile::Core, 2, 3)], stale: false },
+        "C05" => Plan { prop, seeds: vec!["refs", "nested", "twofile", "samever", "lenient", "longname"], runs: vec![(Profile::Refs, 2, 3), (Profile::All, 1, 2)], stale: false },
+        "C06" => Plan { prop, seeds: vec!["refs", "nested", "twofile", "samever", "longname"], runs: vec![(Profile::Refs, 2, 3), (Profile::Core, 2, 3)], stale: false },
         "C10" => Plan { prop, seeds: vec!["twofile", "samever", "mixedver", "refs", "empty", "lastfile"], runs: vec![(Profile::Files, 2, 3), (Profile::All, 1, 2)], stale: false },
         "C11" => Plan { prop, seeds: all_seeds, runs: vec![(Profile::All, 1, 2), (Profile::Files, 2, 3)], stale: false },
         "C12" => Plan { prop, seeds: all_seeds, runs: vec![(Profile::All, 1, 2), (Profile::Core, 2, 3)], stale: true },
-        "C13" => Plan { prop, seeds: vec!["refs", "nested", "twofile", "mixedver", "lenient"], runs: vec![(Profile::Tree, 2, 3)], stale: false },
+        "C13" => Plan { prop, seeds: vec!["refs", "nested", "twofile", "mixedver", "lenient", "longname"], runs: vec![(Profile::Tree, 2, 3)], stale: false },
         _ => panic!("no histx plan for {prop}"),
     }
 }
